@@ -24,7 +24,12 @@ func (ec *executionContext) PopulateMReqRequires(ctx context.Context, entity *MR
 	if !ok {
 		return fmt.Errorf("representation has no object own")
 	}
-	entity.Ext, entity.Num, entity.Own = ext, int(num), &Owner{ID: fmt.Sprint(own["id"]), Tier: func() *string {
+	entity.Ext, entity.Num, entity.Own = ext, int(num), &Owner{ID: fmt.Sprint(own["id"]), Home: func() *Place {
+		if h, ok := own["home"].(map[string]any); ok {
+			return &Place{ID: fmt.Sprint(h["id"])}
+		}
+		return nil
+	}(), Tier: func() *string {
 		if s, ok := own["tier"].(string); ok {
 			return &s
 		}
@@ -51,7 +56,12 @@ func (ec *executionContext) PopulateSReqRequires(ctx context.Context, entity *SR
 	if !ok {
 		return fmt.Errorf("representation has no object own")
 	}
-	entity.Ext, entity.Num, entity.Own = ext, int(num), &Owner{ID: fmt.Sprint(own["id"]), Tier: func() *string {
+	entity.Ext, entity.Num, entity.Own = ext, int(num), &Owner{ID: fmt.Sprint(own["id"]), Home: func() *Place {
+		if h, ok := own["home"].(map[string]any); ok {
+			return &Place{ID: fmt.Sprint(h["id"])}
+		}
+		return nil
+	}(), Tier: func() *string {
 		if s, ok := own["tier"].(string); ok {
 			return &s
 		}
